@@ -100,6 +100,16 @@ pub fn case(tape: &[u8], ctx: &Ctx) -> Outcome {
                 val_off = false;
                 i_taint = false;
             }
+            Op::IReset if a.rc == 0 => {
+                i_taint = false;
+            }
+            Op::IResetKeep if a.rc == 0 => {
+                // inflateResetKeep (undocumented in the manual) keeps "the window" - but whether the previous stream's
+                // output is IN the window depends on zlib-ng's lazy window allocation and its skip of the final window
+                // update under Z_FINISH; zlib-rs always keeps the history. Not comparable until a real reset.
+                i_taint = true;
+                ever_i_taint = true;
+            }
             Op::IValidate { v } if a.rc == 0 && i_gz => {
                 if *v == 0 {
                     val_off = true;
@@ -111,7 +121,7 @@ pub fn case(tape: &[u8], ctx: &Ctx) -> Outcome {
             _ => {}
         }
         if i_taint && matches!(op, Op::IInflate { .. } | Op::ISync { .. } | Op::ISyncPoint | Op::IMark | Op::ICopyBack | Op::IGetDict { .. }) {
-            o.class("not compared: gzip stream after inflateValidate off->on (zlib-ng's CRC state is unspecified)");
+            o.class("not compared: inflate slot after inflateValidate off->on on a gzip stream or after inflateResetKeep (zlib-ng's state is unspecified)");
             continue;
         }
         let slot = match op {
